@@ -65,23 +65,26 @@ def zone_year_worker(args):
     whenever._patch_time_frozen(SystemDateTime(year, 7, 1, 12).instant())
     try:
         importlib.reload(dp)
-        res = []
-        for t in times:
-            s, ns = divmod(t, NS_S)
-            tm = Time(s // 3600, s % 3600 // 60, s % 60, nanosecond=ns)
-            try:
-                dp.check_dst_handling(tm, None, None)
-                res.append('a')
-            except ValueError:
-                res.append('r')
-            except Exception as e:  # noqa: BLE001
-                res.append('E')
+        out = {}
+        for mode, (f, b) in (('none', (None, None)), ('fwd', ('skip', None)), ('bwd', (None, 'twice'))):
+            res = []
+            for t in times:
+                s, ns = divmod(t, NS_S)
+                tm = Time(s // 3600, s % 3600 // 60, s % 60, nanosecond=ns)
+                try:
+                    dp.check_dst_handling(tm, f, b)
+                    res.append('a')
+                except ValueError:
+                    res.append('r')
+                except Exception as e:  # noqa: BLE001
+                    res.append('E')
+            out[mode] = ''.join(res)
         verb = None
         try:
             verb = dp.check_dst_handling(Time(2, 30), 'skip', 'twice')
         except Exception as e:  # noqa: BLE001
             verb = repr(e)
-        return zone, year, ''.join(res), tuple(getattr(v, 'value', v) for v in verb) if isinstance(verb, tuple) else verb
+        return zone, year, out, tuple(getattr(v, 'value', v) for v in verb) if isinstance(verb, tuple) else verb
     finally:
         whenever._unpatch_time()
 
@@ -99,8 +102,9 @@ class DstProp:
     def run_T(self, run: Run) -> None:
         rnd = random.Random(run.seed * 1_000_003 + 20)
         if run.tier == 'quick':
-            zs = rnd.sample(SHAPE_ZONES, 14) + ['UTC']
-            years = sorted(rnd.sample(range(2020, 2038), 2))
+            zs = list(SHAPE_ZONES) + ['Africa/El_Aaiun', 'Pacific/Fiji', 'America/Nuuk']
+            zs = [z for z in dict.fromkeys(zs) if os.path.exists('/usr/share/zoneinfo/' + z)]
+            years = sorted(rnd.sample(range(2020, 2038), 4))
         else:
             zs = zones()
             years = list(range(2020, 2038))
@@ -115,37 +119,43 @@ class DstProp:
         with ProcessPoolExecutor(max_workers=min(16, os.cpu_count() or 4)) as ex:
             results = list(ex.map(zone_year_worker, jobs, chunksize=1))
         cnt = {'accept_all': 0, 'reject_all': 0, 'mixed': 0}
-        for zone, year, res, verb in results:
+        for zone, year, out, verb in results:
             aff = affected(zone, year)
-            run.evaluations += len(times)
+            run.evaluations += 3 * len(times)
             for t in times[::7]:
                 run.nontrivial.add((zone, year, t))
-            cnt['accept_all' if set(res) == {'a'} else 'reject_all' if set(res) == {'r'} else 'mixed'] += 1
+            res0 = out['none']
+            cnt['accept_all' if set(res0) == {'a'} else 'reject_all' if set(res0) == {'r'} else 'mixed'] += 1
             if verb != ('skip', 'twice'):
                 run.findings.append(Finding('oracle', f'[{zone} {year}] both policies given but not used verbatim: {verb}',
                                             {'component': 'dst', 'zone': zone, 'year': year}))
-            for t, r in zip(times, res):
-                if r == 'a':
-                    hit = tod_affected(t, aff, year)
-                    if hit:
-                        run.findings.append(Finding(
-                            'oracle', f'[{zone} {year}] time of day {t} ns is accepted without a DST policy but is {hit[0]} on {hit[1]}',
-                            {'component': 'dst', 'zone': zone, 'year': year, 'time': t}))
+            for mode, res in out.items():
+                # which kinds of clock change must an accepted time be safe from, given the policy that was supplied
+                kinds = {'none': ('skipped', 'repeated'), 'fwd': ('repeated',), 'bwd': ('skipped',)}[mode]
+                for t, r in zip(times, res):
+                    if r == 'a':
+                        hit = tod_affected(t, [x for x in aff if x[0] in kinds], year)
+                        if hit:
+                            given = {'none': 'no DST policy', 'fwd': 'only clock_forward', 'bwd': 'only clock_backward'}[mode]
+                            run.findings.append(Finding(
+                                'oracle', f'[{zone} {year}] time of day {t} ns is accepted with {given} given but is {hit[0]} on {hit[1]}',
+                                {'component': 'dst', 'zone': zone, 'year': year, 'time': t, 'mode': mode}))
+                            break
+                    elif r == 'E':
+                        run.findings.append(Finding('oracle', f'[{zone} {year}] unexpected exception for time {t}',
+                                                    {'component': 'dst', 'zone': zone, 'year': year, 'time': t}))
                         break
-                elif r == 'E':
-                    run.findings.append(Finding('oracle', f'[{zone} {year}] unexpected exception for time {t}',
-                                                {'component': 'dst', 'zone': zone, 'year': year, 'time': t}))
-                    break
-            mod = run_model([zone_line(zone), f'dstcheck {year} ' + ' '.join(map(str, times))])[1]
-            run.traces_validated += 1
-            if len(mod) < 2 or mod[1] != res:
-                i = next((i for i, (a, b) in enumerate(zip(res, mod[1] if len(mod) > 1 else '')) if a != b), 0)
-                run.findings.append(Finding('correspondence', f'dst_param model and code differ for {zone} {year}: time {times[i]} '
-                                                              f'code {res[i]} / model {(mod[1][i] if len(mod) > 1 and len(mod[1]) > i else "?")} ({mod[0] if mod else ""})',
-                                            {'component': 'dst', 'zone': zone, 'year': year, 'time': times[i],
-                                             'broken': 'correspondence dst'}))
+                mod = run_model([zone_line(zone), f'dstcheck {year} {mode} ' + ' '.join(map(str, times))])[1]
+                run.traces_validated += 1
+                if len(mod) < 2 or mod[1] != res:
+                    i = next((i for i, (a, b) in enumerate(zip(res, mod[1] if len(mod) > 1 else '')) if a != b), 0)
+                    run.findings.append(Finding('correspondence', f'dst_param model and code differ for {zone} {year} (policies given: {mode}): '
+                                                                  f'time {times[i]} code {res[i]} / model '
+                                                                  f'{(mod[1][i] if len(mod) > 1 and len(mod[1]) > i else "?")} ({mod[0] if mod else ""})',
+                                                {'component': 'dst', 'zone': zone, 'year': year, 'time': times[i], 'mode': mode,
+                                                 'broken': 'correspondence dst'}))
             run.sample({'zone': zone, 'year': year, 'model_setup': mod[0] if mod else '', 'affected': [(k, str(a), str(b)) for k, a, b in aff],
-                        'accepted': res.count('a'), 'rejected': res.count('r')})
+                        'accepted': res0.count('a'), 'rejected': res0.count('r')})
         run.stats.update(cnt)
 
     def replay(self, run: Run, obj: dict) -> None:
